@@ -22,7 +22,7 @@ RULE = (
     "unpickled AST to be that very object (hence structurally equal: op, args, length, annotation contents) and "
     "equivalent, and unpickled solvers to answer a fixed set of queries as the reference says.  Non-trivial: the "
     "pickled object has an operator node / the solver has at least one constraint; distinct by descriptor hash."
-    " Session 4: a solver and its copy in one pickle; replacement/hybrid solvers with float replacements unpickled under another hash seed."
+    " Session 4: a solver and its copy in one pickle; replacement/hybrid solvers with float replacements unpickled under another hash seed. Session 5: SolverReplacement with user replacements, asked about expressions over the replaced variables before it is stored (one or two generations), then the same store changes (overwrite, remove, clear, add another) on original and copy with the same questions after each."
 )
 ASSUMPTIONS = ["pickles are exchanged between processes running the same claripy tree only"]
 
@@ -194,6 +194,8 @@ def run_shard(spec, res):
                 del keep[:1000]
     elif kind == "solver":
         solver_shard(spec, res, rng)
+        if spec["cls"] == "SolverReplacement":
+            replacement_store_scenarios(spec, res, rng)
     elif kind == "xproc":
         xproc_shard(spec, res, rng)
 
@@ -337,6 +339,88 @@ def solver_shard(spec, res, rng):
             res.violation({"kind": "pickle", "what": "history-raised", "config": run.cfg, "observed": repr(ex)[:300], "tb": traceback.format_exc()[-1500:], "history": run.log[-20:]})
         res.case([run.cfg, [e[2] for e in run.log]], bool(run.live[0].cons))
         del keep[:]
+
+
+def replacement_store_scenarios(spec, res, rng):
+    """A SolverReplacement whose replacements were put in by the user, asked about expressions over the replaced
+    variables (which fills its look-up cache), stored and restored; then the same changes of the replacement store on
+    the original and on the copy (a replacement overwritten, removed, all cleared, a new one added), the same
+    questions after every change: the two must agree, and agree with the value the replacements in force determine."""
+    import pickle
+
+    import claripy
+
+    n = max(10, spec["n"])
+    for it in range(n):
+        w = rng.choice([8, 16, 32])
+        m = (1 << w) - 1
+        x, y = claripy.BVS("rx", w, explicit_name=True), claripy.BVS("ry", w, explicit_name=True)
+        s = claripy.SolverReplacement(auto_replace=rng.random() < 0.3)
+        s.add(claripy.ULT(y, 100))
+        v0 = rng.randrange(0, 50)
+        s.add_replacement(x, claripy.BVV(v0, w))
+        k1, k2 = rng.randrange(1, 9), rng.randrange(0, 9)
+        exprs = [x + 1, x * k1 + k2, x ^ k2, x + x, claripy.If(x == v0, claripy.BVV(1, w), claripy.BVV(2, w)), x]
+        vals = lambda v: [(v + 1) & m, (v * k1 + k2) & m, v ^ k2, (2 * v) & m, 1 if v == v0 else 2, v]  # noqa: E731
+        rng.shuffle(exprs_ix := list(range(len(exprs))))
+        asked = exprs_ix[: rng.randrange(0, len(exprs) + 1)]
+        generations = rng.choice([1, 1, 2])
+        t = s
+        try:
+            for g_ in range(generations):
+                if g_ == generations - 1:
+                    for i in asked:
+                        s.eval(exprs[i], 2)
+                        if t is not s:
+                            t.eval(exprs[i], 2)
+                t = pickle.loads(pickle.dumps(t, -1))
+                if generations == 2 and g_ == 0:
+                    s = pickle.loads(pickle.dumps(s, -1))
+        except claripy.errors.ClaripyError as ex:
+            res.count("replacement_store_setup_raised")
+            res.setadd("replacement_store_setup_raised", repr(ex)[:100])
+            continue
+        cur = v0
+
+        def ask(sol):
+            out = []
+            for e in exprs:
+                for q in (lambda: (lambda r_: tuple(sorted(r_)) if len(r_) < 3 else "at-least-3")(sol.eval(e, 3)), lambda: sol.max(e), lambda: sol.min(e)):
+                    try:
+                        out.append(q())
+                    except claripy.errors.ClaripyError as ex:
+                        out.append("raised:" + type(ex).__name__)
+            return out
+
+        changes = ["none"] + [rng.choice(["overwrite", "overwrite", "remove", "clear", "add-other"]) for _ in range(rng.choice([1, 2, 3]))]
+        for ch in changes:
+            nv = rng.randrange(50, 90)
+            for sol in (s, t):
+                if ch == "overwrite":
+                    sol.add_replacement(x, claripy.BVV(nv, w))
+                elif ch == "remove":
+                    sol.remove_replacements({x.hash()})
+                elif ch == "clear":
+                    sol.clear_replacements()
+                elif ch == "add-other":
+                    sol.add_replacement(y, claripy.BVV(nv % 100, w))
+            if ch in ("overwrite",):
+                cur = nv
+            elif ch in ("remove", "clear"):
+                cur = None
+            a1, a2 = ask(s), ask(t)
+            res.count("replacement_store_comparisons")
+            res.case(["replstore", w, v0, k1, k2, asked, generations, changes], True)
+            if a1 != a2:
+                res.violation({"kind": "pickle", "what": "unpickled-replacement-solver-differs-after-store-change", "width": w, "initial_replacement": v0, "asked_before_pickling": [repr(exprs[i]) for i in asked], "generations": generations, "changes": changes, "at_change": ch, "original": list(map(repr, a1)), "unpickled": list(map(repr, a2))})
+                break
+            if isinstance(cur, int):
+                want = []
+                for v in vals(cur):
+                    want += [(v,), v, v]
+                if a1 != want:
+                    res.violation({"kind": "pickle", "what": "replacement-solver-answer-not-the-replaced-value", "width": w, "replacement_in_force": cur, "changes": changes, "at_change": ch, "observed": list(map(repr, a1)), "expected": list(map(repr, want))})
+                    break
 
 
 def xproc_shard(spec, res, rng):
